@@ -130,6 +130,19 @@ impl<'a, T: DateRoll> Q<'a, T> {
         };
         self.out.push(json!({"f":"range","a":a,"b":b,"o":o,"r":r}));
     }
+    pub fn non_bus(&mut self, d: i64) {
+        let (o, r) = match guard(|| self.cal.is_non_bus_day(&dn(d))) { Outcome::Ok(b) => ("ok", b), Outcome::Panic(_) => ("panic", false) };
+        self.out.push(json!({"f":"non_bus","d":d,"o":o,"r":r}));
+    }
+    pub fn cal_range(&mut self, a: i64, b: i64) {
+        let res = guard(|| self.cal.cal_date_range(&dn(a), &dn(b)));
+        let (o, r): (&str, Vec<i64>) = match res {
+            Outcome::Ok(Ok(v)) => ("ok", v.iter().map(nd).collect()),
+            Outcome::Ok(Err(_)) => ("err", vec![]),
+            Outcome::Panic(_) => ("panic", vec![]),
+        };
+        self.out.push(json!({"f":"cal_range","a":a,"b":b,"o":o,"r":r}));
+    }
     pub fn add_months(&mut self, d: i64, months: i32, mi: usize, roll: &RollDay, s: bool) {
         let (o, r) = date_out(guard(|| self.cal.add_months(&dn(d), months, &MODS[mi].1, roll, s)));
         self.out.push(json!({"f":"add_months","d":d,"mo":months,"m":MODS[mi].0,"roll":roll_json(roll),"s":s,"o":o,"r":r}));
@@ -188,6 +201,9 @@ fn battery<T: DateRoll>(cal: &T, q0: i64, q1: i64, nmax: i64, with_s: bool) -> V
         for b in q0..=q1 {
             q.range(d, b);
         }
+        q.non_bus(d);
+        q.cal_range(d, q1);
+        q.cal_range(q1, d);
     }
     q.out
 }
@@ -324,7 +340,9 @@ fn random_queries<T: DateRoll>(cal: &T, r: &mut Rng, centre: i64, nq: usize, lo:
             5 => {
                 let a = d;
                 let b = d + r.range(-3, 40);
-                q.range(a, b)
+                q.range(a, b);
+                if r.chance(0.3) { q.cal_range(a, b); }
+                if r.chance(0.3) { q.non_bus(b); }
             }
             _ => {
                 // month offsets landing inside the window
